@@ -493,7 +493,12 @@ class TextNmea2000Gateway(AsyncIOClient):
         a standard NMEA2000 message) and processes it. It's called repeatedly
         by the _receive_loop() method.
         """
-        data = await self.reader.readline()
+        try:
+            data = await self.reader.readline()
+        except ValueError as e:
+            # a line longer than the stream's limit: the reader has dropped it, the link itself is fine
+            self.logger.warning(f"Skipping overlong line. Error: {e}")
+            return
         if not data:
             # end of stream: readline() returns b'' immediately from now on
             raise ConnectionError("Connection closed by the gateway")
